@@ -19,6 +19,7 @@ pub fn plan() -> Plan {
         soft_s: (24, 420),
         exhaustive: None,
         min_evaluations: 200,
+        extra: None,
     }
 }
 
@@ -34,7 +35,7 @@ pub fn spec() -> Spec {
         check_name: "c04",
         profile: Profile::c04(),
         surface: S_ALL_QUERIES,
-        owned: vec![Class::Lifecycle, Class::DataOp, Class::Read, Class::Contains, Class::Lists, Class::ReadWith, Class::Close],
+        owned: vec![Class::Lifecycle, Class::DataOp, Class::DelCount, Class::Read, Class::Contains, Class::Lists, Class::ReadWith, Class::Close],
         nontrivial_rule: 0,
         dup: Some(true),
         enumerate_len: (0, 0),
